@@ -1,7 +1,7 @@
 #!/bin/sh
 # tools/seedcheck.sh <patch.diff> <check id> [extra check args...]
 # Applies a seeded change to /repo, runs one check, and always restores /repo afterwards.
-PATCH="$1"; shift
+PATCH="$(cd "$(dirname "$1")" && pwd)/$(basename "$1")"; shift
 ID="$1"; shift
 cd /repo || exit 9
 git diff --quiet || { echo "/repo has uncommitted changes: refusing"; exit 9; }
